@@ -6,8 +6,9 @@ det.install()
 import checklib  # noqa: E402
 import core      # noqa: E402
 
-SUITES = {'C17': ('inplace',), 'C03': ('tour', 'sim'), 'C04': ('tour', 'sim'), 'C05': ('tour', 'sim'), 'C09': ('tour', 'sim'),
-          'C01': ('tour', 'sim'), 'C02': ('tour', 'sim'), 'C07': ('tour', 'sim'),
+SUITES = {'C17': ('inplace', 'pack'), 'C03': ('tour', 'sim', 'pack'), 'C04': ('tour', 'sim', 'pack'),
+          'C05': ('tour', 'sim'), 'C09': ('tour', 'sim'),
+          'C01': ('tour', 'sim', 'pack'), 'C02': ('tour', 'sim'), 'C07': ('tour', 'sim'),
           'C13': ('tour', 'sim'), 'C14': ('tour', 'sim'), 'C06': ('sched',)}
 
 RULES = {
